@@ -738,16 +738,19 @@ package bkl
 //@   modifies Parser.docs, Document.Data, Document.Parents
 
 //@ func Parser.Output(p, format) (out, err)
+//@   property C07, C17 shallow   -- a failed evaluation (an unresolved $required above all) must surface as a failure of every output method
 //@   propagates all   [C08] [C20] [C07] [C03]
 //@   property C19
 //@   property C05
 //@   ensures (=> (= (fmtByName format) 0) (isErr err))                                                      [C05]
 //@   modifies nothing
 //@ func Parser.OutputDocuments(p) (res, err)
+//@   property C07, C17 shallow   -- a failed evaluation (an unresolved $required above all) must surface as a failure of every output method
 //@   propagates all   [C08] [C20] [C07] [C03]
 //@   property C19
 //@   modifies nothing
 //@ func Parser.OutputToWriter(p, fh, format) (err)
+//@   property C07, C17 shallow   -- a failed evaluation (an unresolved $required above all) must surface as a failure of every output method
 //@   property C19
 //@   property C05
 //@   property C20 shallow
@@ -756,6 +759,7 @@ package bkl
 //@     assert (= format (ite (= format@pre "") "json-pretty" format@pre))                                  [C05]
 //@   modifies nothing
 //@ func Parser.OutputToFile(p, path, format) (err)
+//@   property C07, C17 shallow   -- a failed evaluation (an unresolved $required above all) must surface as a failure of every output method
 //@   property C19
 //@   property C05
 //@   property C20 shallow
